@@ -488,6 +488,174 @@ pub fn check(c: &Case) -> Verdict {
     Verdict::pass_c(if nt { Some(fp_json(c)) } else { None }, classes)
 }
 
+// ---------------------------------------------------------------------------
+// unopenable files: "copying any /proc or release file", "reading CPU information",
+// "reading a thread name" fail because open() is refused (fault injection at the open call)
+// ---------------------------------------------------------------------------
+
+#[derive(Debug, Clone, PartialEq, Eq, Hash, Serialize, Deserialize)]
+pub struct DenyCase {
+    /// bit i: file i cannot be opened by the dumper (see vcore::faultfs: cpuinfo, the copy of
+    /// /proc/<blamed>/status, lsb-release + os-release, cmdline, environ, auxv, limits, comm)
+    pub deny: u8,
+    pub parked: u8,
+    pub blamed_other: bool,
+    /// additionally one of the injectable fail points (0 = none)
+    pub failspot: u8,
+}
+
+pub fn check_denied(c: &DenyCase) -> Verdict {
+    use crate::vcore::faultfs::*;
+    init_scratch();
+    let scratch = Target::new_scratch();
+    let mut b = Builder::new();
+    let mut ids = vec![];
+    for i in 0..(c.parked % 4) {
+        let st = b.add_stack(2, true, 31 + i as u64);
+        ids.push(b.add_thread(K_PARKED, Some(format!("deny{i}").into_bytes()), st.base + 0x900, 300 + i as u64));
+    }
+    let t = match Target::spawn(&b.spec, scratch) {
+        Ok(t) => t,
+        Err(e) => return Verdict::Inconclusive(format!("target setup: {}", e.split(':').next().unwrap_or(""))),
+    };
+    if !t.wait_settled(&b.spec) {
+        return Verdict::Inconclusive("target did not settle".into());
+    }
+    let pid = t.pid;
+    let tids: Vec<i32> = std::iter::once(pid).chain(ids.iter().map(|i| t.tid(*i))).collect();
+    let blamed = if c.blamed_other && tids.len() > 1 { tids[1] } else { pid };
+    // the auxiliary vector is handed in complete, so that an unopenable auxv file only concerns its copy
+    let opts = DumpOpts { blamed, direct_auxv: Some(true_auxv(pid)), ..Default::default() };
+    macro_rules! bad {
+        ($sig:expr, $($arg:tt)*) => { return Verdict::viol(format!("C11:denied:{}", $sig), format!($($arg)*)) };
+    }
+    let dump = |deny: u32, spot: u8| -> Result<(Vec<u8>, u32), Verdict> {
+        let mut w = make_writer(pid, &opts);
+        let mut dest = Dest::new(vec![], 0);
+        let (out, refused) = with_denied_files(deny, if spot & FS_CPUINFO != 0 { 1 } else { 2 }, || with_failspots(spot, || run_dump(&mut w, &mut dest)));
+        match out {
+            DumpOutcome::Ok(v) => Ok((v, refused)),
+            DumpOutcome::Err(e) => Err(Verdict::viol(format!("C11:denied:dump-failed:{}", e.split('(').take(2).collect::<Vec<_>>().join("(")), format!("with unopenable files {deny:#x} (fail point {spot:#x}) the dump returned {e}"))),
+            DumpOutcome::Panic(l, m) => Err(panic_verdict(&l, &m)),
+        }
+    };
+    let (ref_img, _) = match dump(0, 0) {
+        Ok(x) => x,
+        Err(v) => return v,
+    };
+    if !t.wait_settled(&b.spec) {
+        return Verdict::Inconclusive("target did not settle between the two dumps".into());
+    }
+    let spot = match c.failspot % 6 {
+        0 => 0,
+        k => 1u8 << (k - 1),
+    } & !FS_AUXV; // (auxv info is complete: that fail point is not reached)
+    let deny = c.deny as u32;
+    let (img, refused) = match dump(deny, spot) {
+        Ok(x) => x,
+        Err(v) => return v,
+    };
+    let (ref_d, d) = (md::decode(&ref_img), md::decode(&img));
+    if let Some(p) = md::structural_problems(&d, Some(18)).first() {
+        bad!(format!("structure:{}", p.sig), "{}", p.detail);
+    }
+    let (ref_se, se) = match (soft_errors_of(&ref_img, &ref_d), soft_errors_of(&img, &d)) {
+        (Ok(a), Ok(b)) => (a, b),
+        (Err(e), _) | (_, Err(e)) => bad!("soft-error-stream-malformed", "{e}"),
+    };
+    let (mut natural, mut got) = (BTreeMap::new(), BTreeMap::new());
+    flatten(&ref_se, "", &mut natural);
+    flatten(&se, "", &mut got);
+    got.remove("InitErrors/StopProcessFailed:Timeout");
+    natural.remove("InitErrors/StopProcessFailed:Timeout");
+    // expected: what fails without any injection (e.g. a machine without release files), plus one
+    // entry per refused step
+    let mut want = natural.clone();
+    let n_threads = tids.len() as u32;
+    let mut add = |k: &str, n: u32| *want.entry(k.to_string()).or_default() += n;
+    let files: [(u32, u32, &str); 7] = [
+        (F_CPUINFO, md::ST_LINUX_CPU_INFO, "WriteCpuInfoFailed"),
+        (F_STATUS, md::ST_LINUX_PROC_STATUS, "WriteThreadProcStatusFailed"),
+        (F_OS_RELEASE, md::ST_LINUX_LSB_RELEASE, "WriteOsReleaseInfoFailed"),
+        (F_CMDLINE, md::ST_LINUX_CMD_LINE, "WriteCommandLineFailed"),
+        (F_ENVIRON, md::ST_LINUX_ENVIRON, "WriteEnvironmentFailed"),
+        (F_AUXV, md::ST_LINUX_AUXV, "WriteAuxvFailed"),
+        (F_LIMITS, md::ST_MOZ_LINUX_LIMITS, "WriteLimitsFailed"),
+    ];
+    for (bit, ty, key) in files {
+        let in_ref = ref_d.raw.contains_key(&ty);
+        if deny & bit != 0 {
+            if in_ref {
+                add(key, 1);
+            }
+            if d.raw.contains_key(&ty) {
+                bad!("stream-of-unopenable-file", "file {key} could not be opened but stream {ty:#x} is present");
+            }
+        } else {
+            if in_ref != d.raw.contains_key(&ty) {
+                bad!("stream-lost", "stream {ty:#x}: present without injection: {in_ref}, with unopenable files {deny:#x}: {}", !in_ref);
+            }
+            if ![md::ST_LINUX_CPU_INFO, md::ST_LINUX_PROC_STATUS].contains(&ty) && raw_bytes(&img, &d, ty) != raw_bytes(&ref_img, &ref_d, ty) {
+                bad!("stream-differs", "raw stream {ty:#x} differs from the dump taken without injection");
+            }
+        }
+    }
+    let cpu_step_fails = deny & F_CPUINFO != 0 || spot & FS_CPUINFO != 0;
+    if cpu_step_fails {
+        add("WriteSystemInfoErrors/WriteCpuInformationFailed", 1);
+    }
+    let names_fail = deny & F_COMM != 0 || spot & FS_THREAD_NAME != 0;
+    if names_fail {
+        add("InitErrors/EnumerateThreadsErrors/ReadThreadNameFailed", n_threads);
+    }
+    if spot & FS_STOP != 0 {
+        add("InitErrors/StopProcessFailed:Stop", 1);
+    }
+    if spot & FS_SUSPEND != 0 {
+        add("SuspendThreadsErrors/PtraceAttachError:1234", 1);
+    }
+    if got != want {
+        let missing: Vec<&String> = want.iter().filter(|(k, n)| got.get(*k).copied().unwrap_or(0) < **n).map(|(k, _)| k).collect();
+        let sig = if missing.is_empty() { "spurious-soft-error".to_string() } else { format!("failure-not-reported:{}", missing[0].split('/').next().unwrap_or("")) };
+        bad!(sig, "unopenable files {deny:#x} ({refused} opens refused), fail point {spot:#x}: reported {got:?}, expected {want:?}");
+    }
+    // everything else as in the dump without injection
+    {
+        use crate::vcore::normal::*;
+        let (mut na, mut nb) = (normal_form(&ref_img, &ref_d), normal_form(&img, &d));
+        for n in [&mut na, &mut nb] {
+            n.soft_errors.clear();
+            for (bit, ty, _) in files {
+                if deny & bit != 0 {
+                    n.raw.remove(&ty);
+                }
+            }
+            if cpu_step_fails {
+                // architecture, platform and OS version do not come from that step
+                n.sysinfo = n.sysinfo.take().map(|s| (s.0, 0, 0, 0, s.4, s.5.clone(), [0; 24]));
+            }
+            if names_fail {
+                n.thread_names.clear();
+            }
+            n.unused_entries = 0;
+        }
+        if names_fail && d.thread_names.as_ref().map(|v| !v.is_empty()).unwrap_or(false) {
+            bad!("names-without-readable-comm", "no thread name could be read but the names stream has entries");
+        }
+        if let Some((what, detail)) = first_difference(&na, &nb) {
+            bad!("stream-differs", "with unopenable files {deny:#x} the dump differs from the one taken without injection in {what}: {detail}");
+        }
+    }
+    let mut classes: Vec<String> = files.iter().filter(|(bit, _, _)| deny & bit != 0).map(|(_, _, k)| format!("refused:{k}")).collect();
+    if deny & F_COMM != 0 {
+        classes.push("refused:comm".into());
+    }
+    if deny != 0 && refused == 0 {
+        classes.push("nothing-refused".into());
+    }
+    Verdict::pass_c(if deny != 0 { Some(fp_json(c)) } else { None }, classes)
+}
+
 fn thread_strategy() -> impl Strategy<Value = (u8, NameG)> {
     (
         prop_oneof![4 => Just(K_PARKED), 2 => Just(K_SLEEPER), 1 => Just(K_NULLSP), 2 => Just(K_EXITER)],
@@ -550,11 +718,28 @@ pub fn run(ctx: &mut LaneCtx) {
         check,
     );
     let _ = pick;
+    run_denied(ctx);
+}
+
+pub fn run_denied(ctx: &mut LaneCtx) {
+    ctx.assume("open() fault injection: the harness binary defines open64/open itself, so every File::open of the code under test passes through a shim that refuses (EACCES) the files selected by the case; /proc/<blamed>/status is refused only for its copy (armed by the second open of /proc/cpuinfo), because the same file is read earlier for every thread's parent and group id, which is not a best-effort step");
+    ctx.run_sub(
+        SubSpec {
+            name: "unopenable-files",
+            cases: (640, 16_000),
+            rule: "every subset of the eight files the writer copies or consults on a best-effort basis (/proc/cpuinfo, the copy of /proc/<blamed>/status, lsb-release and os-release, cmdline, environ, auxv, limits, every thread's comm) made unopenable for the dumper, x 0..3 extra threads x blamed thread main/other x optionally one injectable fail point; oracle = the dump succeeds, the stream of every refused file is absent and exactly its failure (plus WriteCpuInformationFailed for cpuinfo, one ReadThreadNameFailed per thread for comm) is listed, every other stream equals the dump of the same target taken without injection; non-trivial = at least one file refused; distinct = hash of case",
+            strategy: (any::<u8>(), 0u8..4, any::<bool>(), prop_oneof![3 => Just(0u8), 1 => 1u8..6]).prop_map(|(deny, parked, blamed_other, failspot)| DenyCase { deny, parked, blamed_other, failspot }).boxed(),
+            max_shrink_iters: 200,
+            log_current: true,
+        },
+        check_denied,
+    );
 }
 
 pub fn replay(sub: &str, case: &Value) -> Verdict {
     match sub {
         "failspot-subsets" | "generated" => replay_case::<Case>(case, check),
+        "unopenable-files" => replay_case::<DenyCase>(case, check_denied),
         _ => Verdict::Inconclusive(format!("unknown sub {sub}")),
     }
 }
